@@ -13,6 +13,13 @@ What is generated (and measured in `features`):
    applied lambdas (with defaults that read globals), list/set/dict comprehensions, generator
    expressions, nested comprehensions, nested `def`s, local assignments, `for` loops,
    local names / parameters that coincide with names that are global elsewhere;
+ * SCOPING on purpose (exportscope.py): comprehension / generator-expression variables named like a global of the
+   formula (reference, ItemSpace parameter, cells, child space) that is read as a global elsewhere in the same
+   formula - mostly the idiom `for n in range(n)` -, comprehensions 1-3 deep whose inner element / condition /
+   iterables read the outer variable, lambdas and generator expressions in and around them, keyword arguments named
+   like globals (`bar(x=x)`), parenthesised names (`(n)`, `(foo)(1)`); `scope_shapes` counts which of these shapes
+   every generated formula has (features `shape_*`);
+ * child spaces and ItemSpace parameters named like built-ins; model-level references holding cells / spaces;
  * names shadowing built-ins as references AND as cells (`len`, `max`, `type`, ...), next to
    uses of real built-ins that nothing shadows;
  * references: literal (int, str, bool, None), pickled (list, tuple, dict, nested; one object
@@ -33,8 +40,9 @@ Termination: every cells NAME has a rank and a signature, model wide; a formula 
 names of lower rank (whatever space the call lands in, also through overrides), or its own
 name with the first argument decremented under the guard `> 0`.
 
-Shapes known to break the exporter on the unchanged tree are recognised by `triggers` and
-are not generated (they are covered by corpus witnesses, known_findings.json).
+Shapes that belong to a `status: known` entry of known_findings.json are recognised by `source_triggers` /
+`desc_triggers` / `query_triggers` and are not generated (corpus witnesses cover them); the shapes of repaired
+findings (`status: fixed`) are generated like any other.
 """
 import ast
 import builtins as _bi
@@ -1318,32 +1326,32 @@ def scope_shapes(src):
                 walk_no_barrier(ch.generators[0].iter, depth, bound, top)
                 for part in inner_parts(ch):
                     walk_no_barrier(ast.Expression(part), depth + 1, bound | tg, top if depth else tg)
-                # a name this comprehension binds, read by an ENCLOSING comprehension as a global
             else:
                 walk_no_barrier(ch, depth, bound, top)
     walk_no_barrier(fn, 0, set(), set())
     for c in ast.walk(fn):
-        if isinstance(c, comps):
-            outer_reads = set()
-            for part in inner_parts(c):
-                for n in ast.walk(part):
-                    if isinstance(n, comps) and n is not c:
-                        inner_t = targets(n)
-                        own = set(x.id for x in ast.walk(n) if isinstance(x, ast.Name))
-                        # names read in c's parts outside n
-                        outer_reads |= inner_t
-            if outer_reads:
-                reads_here = set()
-                stack = list(inner_parts(c))
-                while stack:
-                    nd = stack.pop()
-                    if isinstance(nd, comps + barrier) and nd is not c:
-                        continue
-                    if isinstance(nd, ast.Name) and isinstance(nd.ctx, ast.Load):
-                        reads_here.add(nd.id)
-                    stack.extend(ast.iter_child_nodes(nd))
-                if (reads_here & outer_reads & gl) - targets(c):
-                    res.add("bound_inner_global_outer")
+        if not isinstance(c, comps):
+            continue
+        # names bound by a comprehension nested in c's own parts ...
+        inner_bound = set()
+        for part in inner_parts(c):
+            for n in ast.walk(part):
+                if isinstance(n, comps):
+                    inner_bound |= targets(n)
+        if not inner_bound:
+            continue
+        # ... and read by c itself (outside every nested scope) as a global
+        reads_here = set()
+        stack = list(inner_parts(c))
+        while stack:
+            nd = stack.pop()
+            if isinstance(nd, comps + barrier):
+                continue
+            if isinstance(nd, ast.Name) and isinstance(nd.ctx, ast.Load):
+                reads_here.add(nd.id)
+            stack.extend(ast.iter_child_nodes(nd))
+        if (reads_here & inner_bound & gl) - targets(c):
+            res.add("bound_inner_global_outer")
     kws = set(k.arg for n in ast.walk(fn) if isinstance(n, ast.Call) for k in n.keywords if k.arg)
     if kws & gl:
         res.add("keyword_like_global")
